@@ -254,6 +254,80 @@ def rule_symbol_refill(ctx):
     ctx.floor(rid + ".table-readers", 2)
 
 
+def rule_prevsym_commit(ctx):
+    """the code-length decoder remembers every symbol it read as the previous symbol"""
+    from ..facts import op_local, op_place
+    from ..mirutil import Defs, find_path_edges
+    rid = "R-PREVSYM-COMMIT"
+    ctx.rule(rid, "prefix::Histogram::parse_complex: a repeat code (16 / 17) extends the running repeat only if the symbol read "
+                  "immediately before it was the same repeat code (RFC 7932 3.5).  The decoder keeps that symbol in a local that is "
+                  "compared with 16 and 17; every path from a read of a code-length symbol to the next read must pass the store of "
+                  "that symbol into the local - for every symbol value, literal 0 included.  An arm that skips the store lets "
+                  "`17, 0, 17` chain as if the zero had not been there and builds a different code")
+    cr = ctx.prog.crate("jxl_coding")
+    fs = [g for g in cr.fn_list if g.path.endswith("prefix::Histogram::parse_complex")]
+    if len(fs) != 1:
+        ctx.anchor_missing(rid, "jxl_coding::prefix::Histogram::parse_complex")
+        return
+    f = fs[0]
+    ctx.seen(f)
+    defs = Defs(f)
+    reads = [(b, t) for b, t in f.calls() if callee(t) and callee(t)["fn"].endswith("Histogram::read_symbol") and t[4] is not None]
+    # locals compared with both 16 and 17
+    cmp16, cmp17 = set(), set()
+    for b, blk in enumerate(f.blocks):
+        if blk[2]:
+            continue
+        for st in blk[0]:
+            if st[0] == "=" and st[2][0] == "bin" and st[2][1] in ("Eq", "Ne"):
+                for x, y in ((st[2][2], st[2][3]), (st[2][3], st[2][2])):
+                    k = op_const_int(y)
+                    l = op_local(x)
+                    if k in (16, 17) and l is not None:
+                        d = defs.single(l)
+                        src = op_local(d[3][2][1]) if d and d[2] == "assign" and d[3][2][0] == "use" else l
+                        (cmp16 if k == 16 else cmp17).add(src if src is not None else l)
+    prevs = cmp16 & cmp17
+    found = 0
+    for rb, rt in reads:
+        # the symbol local: the read's result, through `?` and the narrowing cast
+        syms, work = set(), [rt[3][0]] if rt[3] and len(rt[3]) == 1 else []
+        while work:
+            x = work.pop()
+            if x in syms:
+                continue
+            syms.add(x)
+            for b, blk in enumerate(f.blocks):
+                if blk[2]:
+                    continue
+                for st in blk[0]:
+                    if st[0] == "=" and len(st[1]) == 1 and st[2][0] in ("use", "cast"):
+                        pl = op_place(st[2][1] if st[2][0] == "use" else st[2][2])
+                        if pl and pl[0] == x:
+                            work.append(st[1][0])
+                t = blk[1]
+                if t[0] == "call" and t[3] and len(t[3]) == 1 and callee(t) and callee(t)["fn"].split("::")[-1] in ("branch", "from", "into") and any(op_local(a) == x for a in t[2]):
+                    work.append(t[3][0])
+        commit = set()
+        for p in prevs & syms:
+            for d in defs.of(p):
+                if not f.is_cleanup(d[0]) and d[2] == "assign" and d[3][2][0] == "use" and op_local(d[3][2][1]) in syms and op_local(d[3][2][1]) != p:
+                    commit.add(d[0])
+        if not commit:
+            continue
+        found += 1
+        p = find_path_edges(f, [rt[4]], lambda x: x == rb, avoid_block=lambda x: x in commit)
+        if p is None:
+            ctx.ok(rid, "prev-symbol-stored", "every path from the symbol read to the next read passes the store of the previous-symbol local (%d store block(s))" % len(commit),
+                   nontrivial=True, fn=f)
+        else:
+            ctx.bad(rid, "prev-symbol-stored|skipped", "a path from the code-length symbol read to the next read does not store the symbol as the previous "
+                    "symbol: a repeat code after it chains with the repeat before it", fn=f, pos=rt[-2])
+    ctx.count(rid + ".reads", found)
+    if not found:
+        ctx.anchor_missing(rid, "the previous-symbol local (compared with 16 and 17, assigned from the symbol read) in parse_complex")
+
+
 def main(pid, tier, repo=None):
     ctx = Ctx(pid, tier, configs=("workspace",), repo=repo)
     specconst.run(ctx, pid, floor=2)
@@ -262,6 +336,7 @@ def main(pid, tier, repo=None):
     rule_single_token(ctx)
     rule_finalize(ctx)
     rule_symbol_refill(ctx)
+    rule_prevsym_commit(ctx)
     ctx.not_decided("that decoding returns exactly the encoded sequence and consumes exactly the encoded bits for every distribution set "
                     "(alias table construction, two-level prefix tables, hybrid-integer expansion, RLE / single-token shortcuts): value-level")
     return ctx.finish(
